@@ -277,10 +277,10 @@ func valAt(v []float64, i int) interface{} {
 
 func init() {
 	fw.Register(&fw.Prop{
-		ID:        "C18",
-		Level:     "model_checking",
-		NoThreads: true,
-		Rule: "3 histories (period 1 on disk + period 2 in memory for 4 keys; keys split between disk and memory; memory only) × includeMemStore {true,false} × every placement of one (quick) / every ordered pair of (thorough) interfering events {insert into the next undelivered key at the same / a newer / an older period, insert into a delivered key, new key, FlushAll, insert+FlushAll, ApplySchema} at every position between the scan snapshot and the delivery of each key; every event runs to exact quiescence inside the scan's row callback; oracle: every delivered row equals the reference model at scan start; non-trivial = placement with at least one insert before the last delivery",
+		ID:          "C18",
+		Level:       "model_checking",
+		NoThreads:   true,
+		Rule:        "3 histories (period 1 on disk + period 2 in memory for 4 keys; keys split between disk and memory; memory only) × includeMemStore {true,false} × every placement of one (quick) / every ordered pair of (thorough) interfering events {insert into the next undelivered key at the same / a newer / an older period, insert into a delivered key, new key, FlushAll, insert+FlushAll, ApplySchema} at every position between the scan snapshot and the delivery of each key; every event runs to exact quiescence inside the scan's row callback; oracle: every delivered row equals the reference model at scan start; non-trivial = placement with at least one insert before the last delivery",
 		Assumptions: []string{"the disk-only scan is a control: it must be just as stable", "positions are between keys: the flat rows of one key are derived from a single in-memory snapshot of that key"},
 		Shards:      func(tier string) int { return 8 },
 		Budget:      func(tier string) time.Duration { return 20 * time.Minute },
